@@ -32,16 +32,23 @@ class Timeout(Exception):
 
 
 def with_timer(seconds, fn, *a, **kw):
-    """Run fn under a wall-clock guard (the real code has inputs that never return)."""
+    """Run fn under a time guard (the real code has inputs that never return).  The budget is
+    `seconds` of this process's own CPU time (a spinning loader burns CPU; a busy machine does not
+    make a fast call look like a hang), with 10x that in wall-clock time as a backstop for a call
+    that blocks without computing."""
     def h(sig, frm):
         raise Timeout()
     old = signal.signal(signal.SIGALRM, h)
-    signal.setitimer(signal.ITIMER_REAL, seconds)
+    oldv = signal.signal(signal.SIGVTALRM, h)
+    signal.setitimer(signal.ITIMER_VIRTUAL, seconds)
+    signal.setitimer(signal.ITIMER_REAL, seconds * 10)
     try:
         return fn(*a, **kw)
     finally:
+        signal.setitimer(signal.ITIMER_VIRTUAL, 0)
         signal.setitimer(signal.ITIMER_REAL, 0)
         signal.signal(signal.SIGALRM, old)
+        signal.signal(signal.SIGVTALRM, oldv)
 
 
 def sh(cmd, cwd=None, timeout=None, env=None):
@@ -270,9 +277,13 @@ def finish(ctx, level, obligations, discharged, checker_cmd, extra_cov, assumpti
         # no theorem is stated for this property yet: what the run did is validate the model against
         # the code and judge the property's predicate on the real code, so say exactly that
         level = "translation_validation"
+        cov.setdefault("explanation", "no property theorem yet; model-vs-implementation correspondence and the "
+                                      "property predicate evaluated on the real code for every generated case")
+    if level == "translation_validation":
         cov.setdefault("programs", cov.get("evaluations", 0))
         cov.setdefault("disagreements_checked", cov.get("evaluations", 0))
-        cov.setdefault("explanation", "no property theorem yet; model-vs-implementation correspondence and the "
+        cov.setdefault("explanation", "theorems cover part of the statement only (listed under 'theorems'); the "
+                                      "property as a whole rests on model-vs-implementation correspondence and the "
                                       "property predicate evaluated on the real code for every generated case")
     cov.setdefault("obligations", obligations)
     cov.setdefault("discharged", discharged)
